@@ -21,7 +21,7 @@ RULE = ("case = (model or copula-model spec, grid constructor in {uniform, fixed
         ">= 2 states per half-axis, l < a < -h) and at least one post-condition was evaluated; distinct = distinct "
         "(model label, ctor, dim, rounded arguments, refinements)")
 ASSUMPTIONS = [
-    "domain: arguments giving at least two states on each half-axis; credit thresholds l < a < -h; truncation "
+    "domain: credit thresholds l < a < -h (on the bounds: refused or well-formed); spatial steps from 1/200 of the truncation bound up to beyond it; truncation "
     "probabilities in [0.9, 0.999999]; probability steps in [0.01, 0.2]",
     "promised tail / step probabilities are judged by scipy quad of the model density (1e-6 relative)",
 ]
